@@ -18,6 +18,8 @@
 (*           "miss"    w : int | Missing = MISSING                         *)
 (*           "deep"    rows : Sequence[Sequence[int]] ; idx : Mapping[str, Sequence[int]]    *)
 (*                     built from a TUPLE of lists and a dict of lists (mutable below the top) *)
+(*           "flag"    value : bool | int  - val 1 is the int 1, val 2 is  *)
+(*                     True: two different values that compare equal       *)
 (* Values are small integers; containers hold 1..n.                        *)
 (***************************************************************************)
 EXTENDS Naturals, Sequences, FiniteSets, TLC
@@ -61,10 +63,15 @@ MutateInput(i) ==
   /\ obs' = O(<<"mutated", i>>)
 
 (* o.updated(...): "valid" replaces the value (re-validated), "invalid" raises and yields nothing,
-   "unknown" names an attribute that does not exist: ignored, an equal copy results *)
+   "unknown" names an attribute that does not exist: ignored, an equal copy results.
+   "invalid_eq" is an invalid replacement that compares equal to the current value (1.0 for the int 1, a tuple of floats
+   for a tuple of ints): re-validated and refused like any other; for "flag" the valid replacement compares equal to the
+   current value (True for 1) and still has to replace it. *)
+HasInvalidEq(o) == o.cls \in {"flat", "flat2", "gen", "cont", "deep"} \/ (o.cls = "miss" /\ o.val # 0)
 Updated(i, how) ==
   /\ Op /\ i \in DOMAIN heap
-  /\ IF how = "invalid"
+  /\ (how = "invalid_eq" => HasInvalidEq(heap[i]))
+  /\ IF how \in {"invalid", "invalid_eq"}
        THEN /\ heap' = heap /\ obs' = O(<<"updated", "rejected">>)
        ELSE /\ Len(heap) < MaxObjs
             /\ LET nv == IF how # "valid" THEN heap[i].val
@@ -81,7 +88,7 @@ Copy(i, deep) ==
   /\ heap' = Append(heap, Obj(heap[i].cls, heap[i].val, 0))
   /\ obs' = O(<<IF deep THEN "deepcopy" ELSE "copy", "equal">>)
 
-SameValue(a, b) == a.cls = b.cls /\ a.val = b.val
+SameValue(a, b) == a.cls = b.cls /\ (a.val = b.val \/ a.cls = "flag")      \* 1 == True
 (* o1 == o2 and o2 == o1, o1 != o2 and o2 != o1 *)
 Compare(i, j) ==
   /\ Op /\ i \in DOMAIN heap /\ j \in DOMAIN heap
@@ -92,7 +99,7 @@ Compare(i, j) ==
 Next == \/ \E c \in Classes, v \in 0..2 : Construct(c, v)
         \/ \E i \in Ids : \/ \E how \in {"set_existing", "set_new", "del_existing", "del_new"} : Poke(i, how)
                           \/ MutateInput(i)
-                          \/ \E how \in {"valid", "invalid", "unknown"} : Updated(i, how)
+                          \/ \E how \in {"valid", "invalid", "invalid_eq", "unknown"} : Updated(i, how)
                           \/ \E deep \in BOOLEAN : Copy(i, deep)
                           \/ \E j \in Ids : Compare(i, j)
 Spec == Init /\ [][Next]_vars
